@@ -4,3 +4,4 @@
 -/
 import RosuModel.Props.C20Exact
 import RosuModel.Props.C20Ieee
+import RosuModel.Props.C20IeeeTicks
